@@ -114,6 +114,17 @@ func c28IsSignedRegion(m map[string]any) bool {
 		return a || b
 	}
 
+	// state: not signed by itself, but its hash (which block maps and suffrage proofs sign over) commits to all of it
+	if _, ok := m["operations"]; ok {
+		_, a := m["hash"]
+		_, b := m["key"]
+		_, c := m["value"]
+
+		if a && b && c {
+			return true
+		}
+	}
+
 	// block map: the node sign is inlined next to manifest and items
 	_, a := m["manifest"]
 	_, b := m["items"]
@@ -156,6 +167,13 @@ func c28Sites(v any, p c28Path, in bool, out *[]c28Site) {
 			*out = append(*out, c28Site{Path: append(c28Path(nil), p...)})
 		}
 	}
+}
+
+// c28StateHeightSite: the height of a state is positional, not content: the state hash does not cover it, and wherever
+// a state is accepted it is compared with the height of the manifest it belongs to (base.IsValidStatesTreeWithManifest,
+// isaacblock.SuffrageProof.IsValid). The statement speaks of signed content; the site is left alone (see Assume).
+func c28StateHeightSite(kind string, s c28Site) bool {
+	return kind == "state" && len(s.Path) == 1 && s.Path.key() == "height"
 }
 
 // c28HintedAncestor returns the type part of the `_hint` of the nearest enclosing object that has one.
@@ -483,7 +501,7 @@ type c28Signed struct {
 
 var c28Kinds = []string{
 	"init-ballot-sign-fact", "accept-ballot-sign-fact", "init-ballot", "accept-ballot", "proposal-sign-fact",
-	"op:candidate", "op:join", "op:disjoin", "op:expel", "op:policy", "op:genesis-policy", "op:genesis-join", "blockmap",
+	"op:candidate", "op:join", "op:disjoin", "op:expel", "op:policy", "op:genesis-policy", "op:genesis-join", "blockmap", "state",
 }
 
 func c28Gen(rt *rapid.T, kind string) c28Signed {
@@ -532,6 +550,11 @@ func c28Gen(rt *rapid.T, kind string) c28Signed {
 		pr, d, _ := c27Proposal(rt)
 
 		return c28Signed{Kind: kind, V: pr, Desc: d}
+	case "state":
+		vk := rapid.SampledFrom([]string{"suffrage", "candidates", "policy"}).Draw(rt, "stateValueKind")
+		st, d := encState(rt, encPoint(rt, 0).Height(), vk)
+
+		return c28Signed{Kind: kind, V: st, Desc: vk + " " + d}
 	case "blockmap":
 		mf, d := encManifest(rt, encPoint(rt, 0).Height())
 		m, md := encBlockMap(rt, mf)
@@ -556,6 +579,8 @@ func c28SameRole(kind string, y any) bool {
 		_, ok = y.(base.ProposalSignFact)
 	case kind == "blockmap":
 		_, ok = y.(base.BlockMap)
+	case kind == "state":
+		_, ok = y.(base.State)
 	default:
 		_, ok = y.(base.Operation)
 	}
@@ -669,8 +694,9 @@ func TestC28(t *testing.T) {
 	defer r.Finish()
 
 	r.Rule("signed objects built with real keys over 6 nodes (INIT/ACCEPT ballot sign facts with all six fact kinds, INIT/ACCEPT ballots in 10 shapes incl. expels, " +
-		"suffrage-confirm and embedded voteproofs, proposals with 0..4 operations, the 7 operation kinds with 1..5 node signs, block maps with 2..6 items); the object is " +
-		"marshaled, parsed into a JSON tree, and every leaf inside a signed region (an object with fact+sign(s), or a block map) is changed once: number+1, bool flipped, " +
+		"suffrage-confirm and embedded voteproofs, proposals with 0..4 operations, the 7 operation kinds with 1..5 node signs, block maps with 2..6 items, states " +
+		"(suffrage / candidates / policy value, with and without previous hash, 1..3 operations); the object is " +
+		"marshaled, parsed into a JSON tree, and every leaf inside a signed region (an object with fact+sign(s), a block map, or a state: its hash commits to all of it) is changed once: number+1, bool flipped, " +
 		"null->hash, one character of a string replaced within its class, time +1ms/+1h, signer/node replaced by another real node's, signature replaced by its ECDSA " +
 		"twin (r,n-s), `_hint` replaced by every other registered hint; arrays lose / duplicate / swap an element. Each mutated document must fail to decode, fail " +
 		"IsValid(networkID), or be a no-op (re-encodes to the original value). Also: IsValid under a foreign network id must fail; facts of different kinds built from " +
@@ -678,6 +704,7 @@ func TestC28(t *testing.T) {
 	r.Floor(40)
 	r.Assume(
 		"only content inside signed regions is mutated: a voteproof's own id / threshold / finished_at and a ballot's expel list are not signed by anybody",
+		"a state is taken as the content its hash commits to (previous, key, value, operations) plus the hash itself; its height is positional and is compared with the manifest's height wherever a state is accepted, so it is not mutated",
 		"times are content at millisecond precision (mitum signs localtime.Normalize(t)); sub-millisecond digits are not mutated",
 		"case changes in hex strings and other re-spellings that decode to the same value are no-ops by the re-encoding rule",
 		"a mutated document that makes the decoder panic counts as rejected here (robustness of decoders is C18/C29/C30 territory)",
@@ -712,6 +739,10 @@ func TestC28(t *testing.T) {
 
 				// verification under a different network id
 				for _, other := range [][]byte{[]byte("verif-networl"), []byte("verif-network2"), []byte("x")} {
+					if kind == "state" {
+						break // a state carries no signature of its own; the network id is bound by the block map that signs over its tree
+					}
+
 					if err := iv.IsValid(other); err == nil {
 						r.Violation(rt, "network-id-not-bound:"+kind, "%s {%s}: IsValid(%q) passes for an object signed for %q", kind, so.Desc, other, gen.NetworkID)
 					}
@@ -787,6 +818,10 @@ func TestC28(t *testing.T) {
 				var cnt c28Counters
 
 				for _, s := range own {
+					if c28StateHeightSite(kind, s) {
+						continue
+					}
+
 					for _, m := range c28Mutate(rt, root, s, hintSwaps) {
 						c28Try(rt, r, so, root, canon, m, &cnt)
 					}
